@@ -3,7 +3,8 @@
 From Coq Require Import ZArith List Bool.
 From Centro Require Import Base.Sx Base.EmdBase Spec.Emd Model.Emd Model.EmdCert
   Proofs.EmdDuality Proofs.EmdScaled Proofs.EmdModel Proofs.EmdSsp Proofs.EmdCertModel Proofs.EmdMetric
-  Proofs.EmdFuel Proofs.EmdHeap Proofs.EmdTransform.
+  Proofs.EmdFuel Proofs.EmdHeap Proofs.EmdTransform Proofs.EmdHeapPos Proofs.EmdHeapOrd Proofs.EmdPotential
+  Proofs.EmdMcfCert.
 From Centro Require Import Model.EmdMcf.
 Import ListNotations.
 Open Scope Z_scope.
@@ -187,3 +188,81 @@ Theorem C10_transform_regular_completes : forall F P Q,
              feasible N N (nz P) (nz Q) (emd_T P Q) (mz F').
 Proof. exact transform_regular_spec. Qed.
 Print Assumptions C10_transform_regular_completes.
+
+(* ------------------------------------------------------------------------------------------------
+   Round 4: layers towards "the line-level solver is optimal" (Model/EmdMcf.v).
+   Layer 1, heap: position table consistent, min-heap order kept, root minimal. *)
+Theorem C10_heap_position_table : forall h v alt h' u du st rc st',
+  (pos_ok h -> heap_decrease_key h v alt = Some h' -> pos_ok h') /\
+  (pos_ok h -> heap_remove_first h = Some h' -> pos_ok h') /\
+  (pos_ok (sp_h st) -> relax u du st v rc = Some st' -> pos_ok (sp_h st')).
+Proof. exact (fun h v alt h' u du st rc st' =>
+  conj (heap_decrease_key_pos h v alt h') (conj (heap_remove_first_pos h h') (relax_pos u du st v rc st'))). Qed.
+Print Assumptions C10_heap_position_table.
+
+Theorem C10_heap_init_position_table : forall nv from, (from < nv)%nat -> pos_ok (heap_init nv from).
+Proof. exact heap_init_pos. Qed.
+Print Assumptions C10_heap_init_position_table.
+
+Theorem C10_heap_decrease_key_order : forall h v alt h' pos, heap_ord h ->
+  oget (snd h) v = Some pos -> (pos < hsize h)%nat -> alt <= key h pos ->
+  heap_decrease_key h v alt = Some h' -> heap_ord h' /\ hsize h' = hsize h.
+Proof. exact heap_decrease_key_ord. Qed.
+Print Assumptions C10_heap_decrease_key_order.
+
+Theorem C10_heap_remove_first_order : forall h h', heap_ord h -> (0 < hsize h)%nat ->
+  heap_remove_first h = Some h' -> heap_ord h' /\ hsize h' = (hsize h - 1)%nat.
+Proof. exact heap_remove_first_ord. Qed.
+Print Assumptions C10_heap_remove_first_order.
+
+Theorem C10_heap_root_min : forall h, heap_ord h -> forall k, (k < hsize h)%nat -> key h 0 <= key h k.
+Proof. exact heap_root_min. Qed.
+Print Assumptions C10_heap_root_min.
+
+(* FULL statement aimed at (layer 1): when compute_shortest_path finalises a node, its d is the
+   shortest reduced-cost distance from the start node (and the labels satisfy the three conditions
+   of C10_potential_update_nonneg).  PROVED: the heap part above (the popped slot 0 is a minimum of the
+   heap, the position table is exact, no index leaves the vectors).  MISSING: lemma
+   dijkstra_labels_shortest (the classical argument on top of it: with non-negative reduced costs
+   the minimum of the frontier is final; relax keeps "label = length of some path, <= label of every
+   finalised predecessor + arc").
+   Layer 2: the reduced-cost update is a potential shift and keeps residual arcs non-negative,
+   conditional on exactly that post-condition. *)
+Theorem C10_potential_update_nonneg : forall fl dd l fr to rc,
+  0 <= rc ->
+  (fin fl fr = true -> fin fl to = true -> nz dd to <= nz dd fr + rc) ->
+  (fin fl fr = true -> fin fl to = false -> nz dd l <= nz dd fr + rc) ->
+  (fin fl to = true -> nz dd to <= nz dd l) ->
+  0 <= rc_update fl dd (nz dd l) fr to rc.
+Proof. exact rc_update_nonneg. Qed.
+Print Assumptions C10_potential_update_nonneg.
+
+Theorem C10_potential_update_is_shift : forall fl dd dl fr to rc,
+  rc_update fl dd dl fr to rc = rc + shift fl dd dl fr - shift fl dd dl to.
+Proof. exact rc_update_is_potential_shift. Qed.
+Print Assumptions C10_potential_update_is_shift.
+
+Theorem C10_potential_update_tight : forall fl dd dl fr to rc,
+  fin fl fr = true -> fin fl to = true -> nz dd to = nz dd fr + rc ->
+  rc_update fl dd dl fr to rc = 0 /\ rc_update fl dd dl to fr (- rc) = 0.
+Proof. exact rc_update_tight. Qed.
+Print Assumptions C10_potential_update_tight.
+
+(* Layer 3: the certificate for the graph handed to min_cost_flow — any graph, any size: a
+   non-negative flow f with node potentials pi such that every arc has reduced cost >= 0 and every
+   arc carrying flow has reduced cost <= 0 is cheapest among all non-negative flows with the same net
+   outflow at every node.  With layers 1-2 this is what makes the final flow optimal without any
+   search; what is MISSING to instantiate it on the model's state is the ghost invariant
+   "stored reduced cost = cost + pi(from) - pi(to)" along the run (C10_potential_update_is_shift is
+   its step) and layer 4 (read_back / my_dist through the node renaming of the reduction), so
+   C10_model_emd_correct still uses the in-model certificate and C10_model_total stays partial. *)
+Theorem C10_mcf_cert_optimal : forall nv sk,
+  (forall k, In k (idx sk) -> (a_fr sk k < nv)%nat /\ (a_tt sk k < nv)%nat) ->
+  forall pi f g,
+  (forall k, In k (idx sk) -> 0 <= f k) -> (forall k, In k (idx sk) -> 0 <= g k) ->
+  (forall v, (v < nv)%nat -> gout sk g v = gout sk f v) ->
+  (forall k, In k (idx sk) -> 0 <= rcost sk pi k) ->
+  (forall k, In k (idx sk) -> 0 < f k -> rcost sk pi k <= 0) ->
+  gcost sk f <= gcost sk g.
+Proof. exact mcf_cert_optimal. Qed.
+Print Assumptions C10_mcf_cert_optimal.
